@@ -128,7 +128,7 @@ ASSUMPTIONS = [
     "the priority type's Ord is a total order (ord_laws) and Hash/Eq of items are consistent (axiom_eqv_*): the hypotheses of the properties, as requires clauses / axioms",
     "usize is 64 bits; a Vec of 8-byte elements has at most 2^60-1 entries (axiom_vec_*_len)",
     "#[derive(PartialEq, PartialOrd)] on Index/Position is field-wise (PartialEqSpecImpl / PartialOrdSpecImpl)",
-    "the declared rewrites R0-R19 of tools/gen.py preserve behaviour (validated by compiling the rewritten crate against the test suite in the thorough tier)",
+    "the declared rewrites R0-R20 of tools/gen.py preserve behaviour (validated by compiling the rewritten crate against the test suite in the thorough tier)",
     "user closures and iterators terminate; termination of loops over user iterators is not proved",
     "trait-impl methods are verified as inherent methods of the same body (dynamic dispatch through std traits not modelled)",
 ]
